@@ -343,6 +343,12 @@ class FakeNet:
             return pending
         if seg == "bytes":
             return 1
+        if seg == "units":
+            # one command's reply per recv(): the granularity of the as-coded model
+            for s in self.socks:
+                if s.conn is not None and s.conn.out and s.state == "connected" and s.conn.pending() == pending:
+                    return len(s.conn.out[0][0])
+            return pending
         if isinstance(seg, (list, tuple)):
             i = self.seg_state
             self.seg_state += 1
